@@ -236,6 +236,145 @@ Proof.
   destruct (run_ok_mono (S F) ts' c' c' d1 (E_refl c') H1) as (d2 & H2 & E2). exists d2. split; [exact H2|eapply E_trans; eauto].
 Qed.
 
+(* ------------------------------------------------------------------ substituted expressions (constants) *)
+(* e' is what e becomes when the constants in it are replaced by their (literal) definitions: a closed expression with the
+   value e has whenever it is evaluated; the span is kept *)
+Definition esub (e e' : lexpr) : Prop := le_span e = le_span e' /\ exists x, cond_ok e x /\ closed_value e' x.
+
+Lemma eval_not_panic e c a d : evaluate_expression e c = Ret a d -> try_current_target_pc c <> PcPanic.
+Proof. unfold evaluate_expression. intros H P. rewrite P in H. discriminate. Qed.
+
+Lemma eval_sval v x c vo c1 : cond_ok v x -> evaluate_expression v c = Ret vo c1 -> ok_trace (g_trace c1) ->
+  vo = Some (SNum x) /\ exists ev, c1 = log c ev.
+Proof.
+  intros [CV|[CH SI]] H OK.
+  - destruct (eval_closed v x c CV (eval_not_panic _ _ _ _ H)) as [ev Ev]. rewrite Ev in H. inversion H; subst. eauto.
+  - unfold evaluate_expression in H.
+    assert (G : forall pc,
+      (if diverges c (le_expr v) then Abort FDiverge
+       else match eval (env_of (symbols c) (current_scope_nx c) pc) (le_expr v) with
+            | EVal w => Ret w (log (flag_usages c (combine (usages (le_expr v)) (le_ids v))) (EvEval (current_scope_nx c) pc (le_expr v) w))
+            | EErr e => Err [mkDiag (DEval e) None [] []] c
+            | EPanic => Abort FPanic
+            end) = Ret vo c1 -> vo = Some (SNum x) /\ exists ev, c1 = log c ev).
+    { intro pc. destruct (diverges c (le_expr v)); [discriminate|].
+      destruct (eval (env_of (symbols c) (current_scope_nx c) pc) (le_expr v)) as [w|e|] eqn:Ev; try discriminate.
+      intro H1. inversion H1; subst vo c1.
+      assert (W : w = Some (SNum x)).
+      { apply (OK (current_scope_nx c) pc (le_expr v) _ x); try exact CH; cbn [g_trace log]; left; reflexivity. }
+      subst w. split; [reflexivity|].
+      rewrite flag_usages_none; [eauto|].
+      apply (Forall_combine_fst (fun q => lookup_in (symbols c) (current_scope_nx c) q <> None)). exact (simple_found _ _ SI _ Ev). }
+    destruct (try_current_target_pc c); [apply (G None); exact H|apply (G (Some (usize_as_i64 z))); exact H|discriminate].
+Qed.
+
+Lemma E_pc c c' : E c c' -> try_current_target_pc c = try_current_target_pc c'.
+Proof. intro HX. unfold try_current_target_pc, try_current_segment; unfold E, core in HX; inversion HX; reflexivity. Qed.
+
+Lemma SimOkX_eval e e' : esub e e' -> SimOkX (evaluate_expression e) (evaluate_expression e').
+Proof.
+  intros (_ & x & CO & CV) c c' HE a d H OK.
+  destruct (eval_sval e x c a d CO H OK) as [-> [ev ->]].
+  assert (P : try_current_target_pc c' <> PcPanic) by (rewrite <- (E_pc _ _ HE); exact (eval_not_panic _ _ _ _ H)).
+  destruct (eval_closed e' x c' CV P) as [ev' Ev']. exists (log c' ev'). split; [exact Ev'|]. apply E_log, E_log_r, HE.
+Qed.
+
+Lemma SimOkX_eval_i64 e e' : esub e e' -> SimOkX (evaluate_expression_as_i64 e) (evaluate_expression_as_i64 e').
+Proof.
+  intros HS c c' HE a d H OK. unfold evaluate_expression_as_i64, bind in *.
+  destruct (evaluate_expression e c) as [vo c1|ds c1|fl] eqn:Ev; try discriminate.
+  assert (D : c1 = d) by (destruct vo as [[n|s]|]; cbn in H; try discriminate; inversion H; reflexivity). subst c1.
+  destruct (SimOkX_eval e e' HS c c' HE vo d Ev OK) as (d' & Ev' & Hd). rewrite Ev'.
+  destruct vo as [[n|s]|]; cbn in H |- *; try discriminate; inversion H; subst; eauto.
+Qed.
+
+Lemma tr_ret {A} (a : A) : TM (ret a). Proof. intro y. apply Tr_refl. Qed.
+Lemma tr_fail {A} ds : TM (@fail A ds). Proof. intro y. apply Tr_refl. Qed.
+Lemma tr_get : TM get. Proof. intro y. apply Tr_refl. Qed.
+Lemma tr_current_target_pc : TM current_target_pc. Proof. apply (RM_current_target_pc Tr Tr_refl). Qed.
+Lemma tr_emit_data_values size vs : TM (emit_data_values size vs).
+Proof. apply (RM_emit_data_values Tr Tr_refl Tr_trans tr_emit tr_eval). Qed.
+
+Ltac tm :=
+  repeat match goal with
+    | |- RM Tr (evaluate_expression_as_i64 _) => apply tr_eval_i64
+    | |- RM Tr current_target_pc => apply tr_current_target_pc
+    | |- RM Tr (bind _ _) => apply (RM_bind Tr Tr_trans); [|intro]
+    | |- RM Tr (ret _) => apply tr_ret
+    | |- RM Tr (fail _) => apply tr_fail
+    | |- RM Tr (err1 _ _ _ _) => apply tr_fail
+    | |- RM Tr (abort _) => intro; exact I
+    | |- RM Tr get => apply tr_get
+    | |- RM Tr (add_symbol _ _) => apply tr_add_symbol
+    | |- RM Tr (emit _ _) => apply tr_emit
+    | |- RM Tr (evaluate_expression _) => apply tr_eval
+    | |- RM Tr (modify (set_current_pc _)) => apply tr_modify; intro; apply Tr_of_good, good_setpc
+    | |- RM Tr (match ?x with _ => _ end) => destruct x
+    | |- RM Tr (if ?b then _ else _) => destruct b
+    end.
+
+Lemma sub_pc F e e' : esub e e' -> SimOkX (emit_token F (TPc e)) (emit_token (S F) (TPc e')).
+Proof.
+  intros HS. destruct F as [|f]; [intros c0 c0' HE0 r0 d0 Hd0; discriminate|]. cbn [emit_token emit_token_body].
+  pose proof HS as [Hsp _]. rewrite <- Hsp.
+  apply SimOkX_bind; [apply SimOkX_eval_i64; exact HS| |].
+  - intros v. apply SimOkX_of_SimOk, SimOk_of_SimM. destruct v; [|sm].
+    match goal with |- SimM (if ?b then _ else _) _ => destruct b; [sm|] | _ => idtac end.
+    apply sim_get_bind; intros c c' H; same_core H;
+    match goal with H1 : segments c = segments c', H2 : current_segment c = current_segment c' |- _ => rewrite H1, H2 end; sm2.
+  - intros v. tm.
+Qed.
+
+Lemma sub_align F e e' : esub e e' -> SimOkX (emit_token F (TAlign e)) (emit_token (S F) (TAlign e')).
+Proof.
+  intros HS. destruct F as [|f]; [intros c0 c0' HE0 r0 d0 Hd0; discriminate|]. cbn [emit_token emit_token_body].
+  pose proof HS as [Hsp _]. rewrite <- Hsp.
+  apply SimOkX_bind; [apply SimOkX_of_SimOk, SimOk_of_SimM, sim_current_target_pc| |].
+  - intros pc. destruct pc; [|apply SimOkX_of_SimOk, SimOk_of_SimM, sim_ret].
+    apply SimOkX_bind; [apply SimOkX_eval_i64; exact HS| |].
+    + intros a. apply SimOkX_of_SimOk, SimOk_of_SimM. destruct a; [|sm]. destruct (z0 <=? 0)%Z; sm.
+    + intros a. tm.
+  - intros pc. tm.
+Qed.
+
+Lemma sub_vardef F ty id isp e e' : esub e e' -> SimOkX (emit_token F (TVarDef ty id isp e)) (emit_token (S F) (TVarDef ty id isp e')).
+Proof.
+  intros HS. destruct F as [|f]; [intros c0 c0' HE0 r0 d0 Hd0; discriminate|]. cbn [emit_token emit_token_body].
+  apply SimOkX_bind; [apply SimOkX_eval; exact HS| |].
+  - intros v. apply SimOkX_of_SimOk, SimOk_of_SimM. destruct v; [|sm].
+    apply sim_get_bind; intros c c' H. rewrite (symbol_core _ _ _ _ _ H). sm.
+  - intros v. tm.
+Qed.
+
+Lemma sub_instr F m msp fm e e' : esub e e' ->
+  SimOkX (emit_token F (TInstr m msp (Some (e, fm)))) (emit_token (S F) (TInstr m msp (Some (e', fm)))).
+Proof.
+  intros HS. destruct F as [|f]; [intros c0 c0' HE0 r0 d0 Hd0; discriminate|]. cbn [emit_token emit_token_body].
+  pose proof HS as [Hsp _]. rewrite <- Hsp.
+  apply SimOkX_bind.
+  - apply SimOkX_bind; [apply SimOkX_eval_i64; exact HS|intro; apply SimOkX_of_SimOk, SimOk_of_SimM, sim_ret|intro; apply tr_ret].
+  - intros data. apply SimOkX_of_SimOk, SimOk_of_SimM. destruct data as [[value f0]|]; [|apply sim_emit].
+    apply sim_bind; [apply sim_current_target_pc|intros pc].
+    destruct (emit_instruction m f0 value pc) as [bytes [er|]]; [destruct er|]; sm.
+  - intros data. destruct data as [[value f0]|]; [|apply tr_emit].
+    apply (RM_bind Tr Tr_trans); [apply tr_current_target_pc|intros pc].
+    destruct (emit_instruction m f0 value pc) as [bytes [er|]]; [destruct er|]; tm.
+Qed.
+
+Lemma sub_data_values size es es' : Forall2 esub es es' -> SimOkX (emit_data_values size es) (emit_data_values size es').
+Proof.
+  induction 1 as [|e e' r r' HS HR IH]; cbn [emit_data_values]; [apply SimOkX_of_SimOk, SimOk_of_SimM, sim_ret|].
+  pose proof HS as [Hsp _]. rewrite <- Hsp.
+  apply SimOkX_bind; [apply SimOkX_eval_i64; exact HS| |].
+  - intros v. apply SimOkX_bind; [apply SimOkX_of_SimOk, SimOk_of_SimM, sim_emit|intro; exact IH|intro; apply tr_emit_data_values].
+  - intros v. apply (RM_bind Tr Tr_trans); [apply tr_emit|intro; apply tr_emit_data_values].
+Qed.
+Lemma sub_data F size es es' : Forall2 esub es es' -> SimOkX (emit_token F (TData size es)) (emit_token (S F) (TData size es')).
+Proof.
+  intros HS. destruct F as [|f]; [intros c0 c0' HE0 r0 d0 Hd0; discriminate|]. cbn [emit_token emit_token_body].
+  apply sub_data_values. exact HS.
+Qed.
+
 (* ------------------------------------------------------------------ the expansion relation with stable conditions *)
 Fixpoint lits_okX (lits : list lexpr) (i : Z) : Prop :=
   match lits with [] => True | li :: r => closed_value li i /\ lits_okX r (i + 1) end.
@@ -254,7 +393,16 @@ Inductive XpS : list token -> list token -> Prop :=
   | XpS_label id isp lp rp body body' ts ts' :
       XpS body body' -> XpS ts ts' -> XpS (TLabel id isp (Some (Blk lp rp body)) :: ts) (TLabel id isp (Some (Blk lp rp body')) :: ts')
   | XpS_segment id lp rp body body' ts ts' :
-      XpS body body' -> XpS ts ts' -> XpS (TSegment id (Some (Blk lp rp body)) :: ts) (TSegment id (Some (Blk lp rp body')) :: ts').
+      XpS body body' -> XpS ts ts' -> XpS (TSegment id (Some (Blk lp rp body)) :: ts) (TSegment id (Some (Blk lp rp body')) :: ts')
+  (* uses of constants replaced by their closed definitions *)
+  | XpS_instr m msp fm e e' ts ts' :
+      esub e e' -> XpS ts ts' -> XpS (TInstr m msp (Some (e, fm)) :: ts) (TInstr m msp (Some (e', fm)) :: ts')
+  | XpS_data size es es' ts ts' :
+      Forall2 esub es es' -> XpS ts ts' -> XpS (TData size es :: ts) (TData size es' :: ts')
+  | XpS_pc e e' ts ts' : esub e e' -> XpS ts ts' -> XpS (TPc e :: ts) (TPc e' :: ts')
+  | XpS_align e e' ts ts' : esub e e' -> XpS ts ts' -> XpS (TAlign e :: ts) (TAlign e' :: ts')
+  | XpS_vardef ty id isp e e' ts ts' :
+      esub e e' -> XpS ts ts' -> XpS (TVarDef ty id isp e :: ts) (TVarDef ty id isp e' :: ts').
 
 Lemma loop_blocks_okX f e lsc lp rp body body' :
   LOkX f body body' ->
@@ -320,7 +468,13 @@ Proof.
                    |e n lsc lp rp body body' lits ts ts' CV Lim Len LO Xb IHb X IH
                    |sc lp rp body body' ts ts' Xb IHb X IH
                    |id isp lp rp body body' ts ts' Xb IHb X IH
-                   |id lp rp body body' ts ts' Xb IHb X IH]; intro F.
+                   |id lp rp body body' ts ts' Xb IHb X IH
+                   |m msp fm e e' ts ts' HS X IH
+                   |size es es' ts ts' HS X IH
+                   |e e' ts ts' HS X IH
+                   |e e' ts ts' HS X IH
+                   |ty id isp e e' ts ts' HS X IH]; intro F;
+  try (apply LOkX_cons_token; [first [apply sub_instr|apply sub_data|apply sub_pc|apply sub_align|apply sub_vardef]; exact HS|apply IH]).
   - apply LOkX_of_LOk, LOk_refl.
   - apply LOkX_cons_token; [apply SimOkX_of_SimOk, token_mono|apply IH].
   - (* .if on a stable condition *)
@@ -516,3 +670,35 @@ Theorem whole_program_stable_chk chi p p' passes F o cf :
   codegen passes F o p = Done cf /\
   exists cf', codegen passes (S F) o p' = Done cf' /\ E cf cf' /\ segment_image cf = segment_image cf' /\ symbols cf = symbols cf'.
 Proof. apply (whole_program_stable chi (chk_of chi) (chk_of_sound chi)). Qed.
+
+(* ------------------------------------------------------------------ constants only *)
+(* the uses of constants in operands, data, `* =`, `.align` and definitions replaced by closed expressions of the value they
+   have in every pass (what substitution of literal definitions gives); the definitions themselves stay, so the tables agree *)
+Inductive XpC (chi : expr -> option Z) : list token -> list token -> Prop :=
+  | XpC_nil : XpC chi [] []
+  | XpC_keep t ts ts' : XpC chi ts ts' -> XpC chi (t :: ts) (t :: ts')
+  | XpC_instr m msp fm e e' ts ts' :
+      esub chi e e' -> XpC chi ts ts' -> XpC chi (TInstr m msp (Some (e, fm)) :: ts) (TInstr m msp (Some (e', fm)) :: ts')
+  | XpC_data size es es' ts ts' :
+      Forall2 (esub chi) es es' -> XpC chi ts ts' -> XpC chi (TData size es :: ts) (TData size es' :: ts')
+  | XpC_pc e e' ts ts' : esub chi e e' -> XpC chi ts ts' -> XpC chi (TPc e :: ts) (TPc e' :: ts')
+  | XpC_align e e' ts ts' : esub chi e e' -> XpC chi ts ts' -> XpC chi (TAlign e :: ts) (TAlign e' :: ts')
+  | XpC_vardef ty id isp e e' ts ts' :
+      esub chi e e' -> XpC chi ts ts' -> XpC chi (TVarDef ty id isp e :: ts) (TVarDef ty id isp e' :: ts')
+  | XpC_braces sc lp rp body body' ts ts' :
+      XpC chi body body' -> XpC chi ts ts' -> XpC chi (TBraces sc (Blk lp rp body) :: ts) (TBraces sc (Blk lp rp body') :: ts')
+  | XpC_label id isp lp rp body body' ts ts' :
+      XpC chi body body' -> XpC chi ts ts' ->
+      XpC chi (TLabel id isp (Some (Blk lp rp body)) :: ts) (TLabel id isp (Some (Blk lp rp body')) :: ts')
+  | XpC_segment id lp rp body body' ts ts' :
+      XpC chi body body' -> XpC chi ts ts' ->
+      XpC chi (TSegment id (Some (Blk lp rp body)) :: ts) (TSegment id (Some (Blk lp rp body')) :: ts').
+
+Lemma XpC_XpS chi ts ts' : XpC chi ts ts' -> XpS chi ts ts'.
+Proof. induction 1; econstructor; eauto. Qed.
+
+Theorem whole_program_const chi p p' passes F o cf :
+  XpC chi p p' -> codegen_okc (chk_of chi) passes F o p = Some cf ->
+  codegen passes F o p = Done cf /\
+  exists cf', codegen passes (S F) o p' = Done cf' /\ E cf cf' /\ segment_image cf = segment_image cf' /\ symbols cf = symbols cf'.
+Proof. intros X. apply whole_program_stable_chk. apply XpC_XpS. exact X. Qed.
